@@ -40,15 +40,38 @@ def analyse(obs: Obs, prog):
     tr_key = "self.traces"
     wrote = r.env.get(tr_key)
     okw = is_t(wrote, "setitem") and wrote[2] == P("addr") and wrote[3] == P("trace")
-    raised = [(c, x) for c, x in r.raises if is_t(x, "ctor") and x[1] == "AddressReuse" or is_call(x, "AddressReuse")]
-    okr = len(raised) == 1 and cond_has(raised[0][0], lambda t: t == ("cmp", "in", P("addr"), sattr("traces")), True)
-    obs.add({"C22"}, "ADDR-UNIQUE", "StaticHandler.record/raise", okr, derived=f"{[show(x) for c, x in r.raises]} under {[show(t) for c, x in r.raises for t, p in c]}", expected="raise AddressReuse(addr) iff addr already recorded", where=W(SH, "record"))
-    obs.add({"C22", "C01"}, "ADDR-UNIQUE", "StaticHandler.record/write", okw, derived=wrote, expected="self.traces[addr] = trace", where=W(SH, "record"))
-    # the membership test precedes the write (statement order in the body)
+    # Addresses are hierarchical ("x", ("x",) and everything below "x" are one sub-tree): "the same address twice" must be judged on normalised PATHS, by a
+    # prefix test against everything visited so far - a raw `addr in self.traces` misses "x" vs ("x", "y") (double-counted score, later a crash in get_choices).
+    # The test lives in a helper (found by what it does) that record calls BEFORE writing, and that the assess handler calls as well (assess never records).
+    def _is_visit(fn):
+        src_ok = {"norm": False, "loop": False, "raise": False, "mark": False}
+        for n in ast.walk(fn):
+            if isinstance(n, ast.IfExp) and "isinstance" in ast.unparse(n.test) and "tuple" in ast.unparse(n.test):
+                src_ok["norm"] = True
+            if isinstance(n, ast.For):
+                for m_ in ast.walk(n):
+                    if isinstance(m_, ast.If) and isinstance(m_.test, ast.Compare) and len(m_.test.ops) == 1 and isinstance(m_.test.ops[0], ast.Eq) \
+                            and isinstance(m_.test.left, ast.Subscript) and isinstance(m_.test.left.slice, ast.Slice) and isinstance(m_.test.comparators[0], ast.Subscript) \
+                            and isinstance(m_.test.comparators[0].slice, ast.Slice) and ast.unparse(m_.test.left.slice) == ast.unparse(m_.test.comparators[0].slice) \
+                            and any(isinstance(x, ast.Raise) and "AddressReuse" in ast.unparse(x) for x in ast.walk(m_)):
+                        src_ok["loop"] = src_ok["raise"] = True
+            if isinstance(n, ast.Call) and isinstance(n.func, ast.Attribute) and n.func.attr in ("append", "add"):
+                src_ok["mark"] = True
+        has_min = any(isinstance(n, ast.Call) and ast.unparse(n.func) == "min" and all("len(" in ast.unparse(a_) for a_ in n.args) for n in ast.walk(fn))
+        return all(src_ok.values()) and has_min
+    visit_helpers = [hn for hn, hf in SH.methods.items() if hn != "record" and _is_visit(hf)]
     body = SH.methods["record"].body
-    idx_if = next((i for i, s in enumerate(body) if isinstance(s, ast.If)), None)
-    idx_w = next((i for i, s in enumerate(body) if isinstance(s, ast.Assign) and isinstance(s.targets[0], ast.Subscript)), None)
-    obs.add({"C22"}, "ADDR-UNIQUE", "StaticHandler.record/order", idx_if is not None and idx_w is not None and idx_if < idx_w, derived=f"if@{idx_if} write@{idx_w}", expected="test before write", where=W(SH, "record"))
+    def _calls_helper(st):
+        return any(isinstance(x, ast.Call) and isinstance(x.func, ast.Attribute) and x.func.attr in visit_helpers and ast.unparse(x.func.value) == "self" for x in ast.walk(st))
+    idx_if = next((i for i, s_ in enumerate(body) if _calls_helper(s_)), None)
+    idx_w = next((i for i, s_ in enumerate(body) if isinstance(s_, ast.Assign) and isinstance(s_.targets[0], ast.Subscript)), None)
+    inline = _is_visit(SH.methods["record"])
+    okr = bool(visit_helpers) and idx_if is not None or inline
+    obs.add({"C22"}, "ADDR-UNIQUE", "StaticHandler.record/raise", okr, construct="address-reuse test",
+            derived=f"hierarchical visit helper(s): {visit_helpers}; record {'calls it' if idx_if is not None else 'does not call it'}" if not inline else "prefix test inline in record",
+            expected="raise AddressReuse(addr) iff the normalised path of addr is a prefix of / has as a prefix / equals a path visited before", where=W(SH, "record"))
+    obs.add({"C22", "C01"}, "ADDR-UNIQUE", "StaticHandler.record/write", okw, derived=wrote, expected="self.traces[addr] = trace", where=W(SH, "record"))
+    obs.add({"C22"}, "ADDR-UNIQUE", "StaticHandler.record/order", inline or (idx_if is not None and idx_w is not None and idx_if < idx_w), derived=f"test@{idx_if} write@{idx_w}", expected="test before write", where=W(SH, "record"))
 
     n_handlers = 0
     ys_index = {}
@@ -135,7 +158,11 @@ def analyse(obs: Obs, prog):
             obs.add({"C04"}, "KEY-LINEAR", inst + "/key", cal[2][0] == keyt, derived=cal[2][0], expected="fold_in(self.key, self.key_counter)", where=w)
         # ---- record exactly once with own addr and the callee's trace
         if kind == "assess":
-            obs.note({"C22"}, "AssessHandler never records: a duplicated address is not detected under assess (the property's sentence is about tracing)")
+            hb = H.methods["handle_trace"].body
+            i_vis = next((i for i, s_ in enumerate(hb) if any(isinstance(x, ast.Call) and isinstance(x.func, ast.Attribute) and x.func.attr in (visit_helpers + ["record"]) and ast.unparse(x.func.value) == "self" for x in ast.walk(s_))), None)
+            i_cal = next((i for i, s_ in enumerate(hb) if any(isinstance(x, ast.Attribute) and x.attr == "assess" for x in ast.walk(s_))), None)
+            obs.add({"C22", "C02"}, "ADDR-UNIQUE", inst + "/visit", i_vis is not None and i_cal is not None and i_vis < i_cal, construct="address-reuse test under assess",
+                    derived=f"visit@{i_vis} callee assess@{i_cal}", expected="assess marks each visited address (self.visit(addr)) before assessing the callee: a duplicated address raises AddressReuse instead of counting its density twice", where=w)
             sc = env.get("self.score")
             okacc = sc == ("bin", "+", sattr("score"), mk_proj(cal, 0))
             obs.add({"C02", "C01"}, "SCORE-AGG", inst + "/accumulate", okacc, derived=sc, expected="self.score += score returned by the callee's assess", where=w)
